@@ -253,7 +253,6 @@ P = {
     "C22.b": "the Comment rule is looked up after all rules are visited and handed to the parser; ws escape table in visit_rule_params",
     "C22.d": "every rule parameter given in the grammar reaches the parameter table (no skip path in visit_rule_params)",
     "C22.e": "every root wrapper built while rule parameters may be present receives them",
-    "C22.f": "the ws escape translation covers \\n \\r \\t",
     "C22.g": "the comment model handed to the parser is refreshed after rule references are resolved",
     "C22.i": "at least one wiring site hands the grammar's Comment rule to the parser under the sole condition that the grammar defines one (no dependence on skipws or on the kind of the current comment model)",
     "C22.c": "the skipws and ws options of the metamodel are forwarded to the model parser under their own names",
